@@ -3,6 +3,8 @@ package hx
 import (
 	"fmt"
 	"math/rand"
+	"runtime"
+	"sync"
 
 	ipfslog "berty.tech/go-ipfs-log"
 	"berty.tech/go-ipfs-log/iface"
@@ -29,6 +31,8 @@ func (s Step) String() string {
 		return fmt.Sprintf("rejected-join(r%d<-copy-of-r%d+%d valid+1 %s entry)", s.R, s.S, s.PC, s.Payload)
 	case "fork":
 		return fmt.Sprintf("fork(r%d:=NewLog(entries,heads of r%d))", s.R, s.S)
+	case "burst":
+		return fmt.Sprintf("concurrent-burst(r%d: %d appends || merges of every other replica || reader)", s.R, s.PC)
 	case "setident":
 		return fmt.Sprintf("setident(r%d,w%d)", s.R, s.S)
 	case "reload":
@@ -58,6 +62,7 @@ var Shapes = []string{"mixed", "widefork", "diamond", "lopsided", "ring", "repea
 var pcs = []int{1, 1, 1, 2, 4, 8, 16, 32, 64}
 
 type GenOpts struct {
+	Bursts      bool // also generate concurrent bursts on one replica (appends || merges || reads)
 	Failures    bool // also generate refused operations (denied appends, rejected merges) and forks
 	Extra       bool // also generate setident / reload steps (C04)
 	MaxSteps    int
@@ -124,6 +129,9 @@ func Gen(seed int64, idx int, o GenOpts) *History {
 	add := func(s Step) {
 		if len(h.Steps) < n {
 			h.Steps = append(h.Steps, s)
+		}
+		if o.Bursts && len(h.Steps) < n && s.Op == "append" && rng.Intn(6) == 0 {
+			h.Steps = append(h.Steps, Step{Op: "burst", R: s.R, PC: 2 + rng.Intn(4), Payload: pay()})
 		}
 		if o.Failures && len(h.Steps) < n && rng.Intn(7) == 0 {
 			// a refused operation or a fork, followed by ordinary traffic
@@ -373,6 +381,71 @@ func NewExec(h *History) *Exec {
 type StepResult struct {
 	Entry iface.IPFSLogEntry
 	Err   error
+	// burst: entries returned by the concurrent appends and every hash a concurrent reader saw in Values()
+	Burst     []iface.IPFSLogEntry
+	BurstSeen map[string]bool
+}
+
+// burst: on replica R, one goroutine appends n entries, another merges every other replica (none of which
+// is being mutated meanwhile) in a loop, a third keeps reading Values(). Everything is joined before it returns.
+func (x *Exec) burst(s Step) StepResult {
+	l := x.Logs[s.R]
+	var res StepResult
+	res.BurstSeen = map[string]bool{}
+	var wg sync.WaitGroup
+	stop := make(chan struct{})
+	wg.Add(1)
+	go func() { // merger
+		defer wg.Done()
+		for round := 0; ; round++ {
+			for r, o := range x.Logs {
+				if r == s.R {
+					continue
+				}
+				select {
+				case <-stop:
+					return
+				default:
+				}
+				if _, err := l.Join(o, -1); err != nil && res.Err == nil {
+					res.Err = err
+				}
+				runtime.Gosched()
+			}
+		}
+	}()
+	var rmu sync.Mutex
+	wg.Add(1)
+	go func() { // reader
+		defer wg.Done()
+		for {
+			select {
+			case <-stop:
+				return
+			default:
+			}
+			for _, e := range l.Values().Slice() {
+				if e != nil {
+					rmu.Lock()
+					res.BurstSeen[e.GetHash().String()] = true
+					rmu.Unlock()
+				}
+			}
+			runtime.Gosched()
+		}
+	}()
+	for k := 0; k < s.PC; k++ {
+		e, err := l.Append(x.W.Ctx, []byte(fmt.Sprintf("%s-b%d", s.Payload, k)), nil)
+		if err != nil {
+			res.Err = err
+			break
+		}
+		res.Burst = append(res.Burst, e)
+		runtime.Gosched()
+	}
+	close(stop)
+	wg.Wait()
+	return res
 }
 
 func (x *Exec) Do(i int) StepResult {
@@ -430,6 +503,8 @@ func (x *Exec) Do(i int) StepResult {
 		}
 		_, jerr := l.Join(tmp, -1)
 		return StepResult{Err: jerr}
+	case "burst":
+		return x.burst(s)
 	case "fork":
 		src := x.Logs[s.S]
 		lo := x.W.LogOpts(x.W.LogID)
